@@ -136,6 +136,13 @@ func judgeText(f *family, lab *fedlab.Lab, q, opName string, opVars map[string]a
 	return outcome, fails
 }
 
+func suffixOf(name string) string {
+	if strings.HasSuffix(name, "+nullentities") {
+		return "+nullentities"
+	}
+	return ""
+}
+
 func firstLine(s string) string {
 	if i := strings.IndexByte(s, '\n'); i >= 0 {
 		return s[:i]
@@ -282,6 +289,8 @@ func nearFamily(run *vk.Run, name string, s *fedlab.Supergraph, u *fedlab.Univer
 			}
 		}
 		f.layouts = append(f.layouts, stub)
+		// subgraphs answer null for entities they hold no data for
+		f.layouts = append(f.layouts, fedlab.NewLayout(s, base2.N, base2.OwnerVector(), base2.Name+"+nullentities"))
 		for _, r := range d {
 			t := s.Type(r.Type)
 			if !t.IsEntity() || t.Field(r.Field).Requires != "" {
@@ -371,6 +380,7 @@ func TestCheck(t *testing.T) {
 			Family   string           `json:"family"`
 			Layout   []int            `json:"layout"`
 			N        int              `json:"n"`
+			Suffix   string           `json:"suffix"`
 			Provides []string         `json:"provides"`
 			Shared   map[string][]int `json:"shared"`
 			Unresolv map[string][]int `json:"unresolvable"`
@@ -385,7 +395,7 @@ func TestCheck(t *testing.T) {
 			if f.name != in.Family {
 				continue
 			}
-			l := fedlab.NewLayout(f.s, in.N, in.Layout, "replay")
+			l := fedlab.NewLayout(f.s, in.N, in.Layout, "replay"+in.Suffix)
 			for _, p := range in.Provides {
 				parts := strings.SplitN(p, ".", 2)
 				l.Provides[fedlab.FieldRef{Type: parts[0], Field: parts[1]}] = true
@@ -403,6 +413,9 @@ func TestCheck(t *testing.T) {
 			lab, err := fedlab.NewLab(l, f.u, fedlab.LabOptions{})
 			if err != nil {
 				t.Fatal(err)
+			}
+			if in.Suffix == "+nullentities" {
+				lab.Sim.NullEntity = fedlab.AutoNullEntity(l)
 			}
 			outcome, fails := judgeText(f, lab, in.Op, in.OpName, in.Vars)
 			fmt.Printf("operation %s\nvariables %v\noutcome %s\n", in.Op, in.Vars, outcome)
@@ -433,6 +446,9 @@ func TestCheck(t *testing.T) {
 				return
 			}
 			lab, err := fedlab.NewLab(l, f.u, fedlab.LabOptions{})
+			if err == nil && strings.HasSuffix(l.Name, "+nullentities") {
+				lab.Sim.NullEntity = fedlab.AutoNullEntity(l)
+			}
 			if err != nil {
 				run.Violate(vk.Violation{Clause: "layout is accepted by the engine configuration", Site: "NewLab", Class: f.name, Detail: l.String() + ": " + err.Error(), Input: map[string]any{"family": f.name, "layout": l.OwnerVector(), "n": l.N}})
 				continue
@@ -443,7 +459,7 @@ func TestCheck(t *testing.T) {
 				// the monolith); thorough: on every federated layout
 				decorate := oi%7 == 0
 				if l.N > 1 {
-					decorate = run.Thorough() || l.Name == "near0" || l.Name == "near0+provides"
+					decorate = run.Thorough() || l.Name == "near0" || l.Name == "near0+provides" || l.Name == "near0+nullentities"
 				}
 				if decorate {
 					variants = append(variants, fedlab.Decorate(base, f.schema)...)
@@ -459,7 +475,7 @@ func TestCheck(t *testing.T) {
 					for _, fl := range fails {
 						run.Violate(vk.Violation{Clause: fl.clause, Site: fl.site, Class: f.name,
 							Detail: fmt.Sprintf("layout %s\noperation %s\nvariables %v\ndecoration %q\n%s", l.String(), op.String(), op.Vars, op.Note, fl.detail),
-							Input:  map[string]any{"family": f.name, "layout": l.OwnerVector(), "n": l.N, "provides": l.ProvidesList(), "shared": l.SharedMap(), "unresolvable": l.Unresolv, "op": op.String(), "opname": op.Name, "vars": op.Vars}})
+							Input:  map[string]any{"family": f.name, "layout": l.OwnerVector(), "n": l.N, "suffix": suffixOf(l.Name), "provides": l.ProvidesList(), "shared": l.SharedMap(), "unresolvable": l.Unresolv, "op": op.String(), "opname": op.Name, "vars": op.Vars}})
 					}
 				}
 				if oi%50 == 0 && run.Expired() {
